@@ -35,6 +35,10 @@ def make_key(U, sel, syntax):
             parts[l] = s["items"][0]
         elif s["kind"] == "list":
             parts[l] = list(s["items"])
+            if s.get("as") == "iter":
+                parts[l] = iter(list(s["items"]))  # any iterable of items is accepted, also a one-shot one
+            elif s.get("as") == "tuple":
+                parts[l] = tuple(s["items"])
         else:
             parts[l] = fd.Dimension(letter=SUBLETTER[l], name=d["name"] + " sub", items=list(s["items"]), dtype=build._DT[d.get("dtype")])
     if syntax == "dict_letter":
@@ -215,6 +219,10 @@ def selectors(draw, U, xletters, allow_list, force_nonempty=False):
             else:
                 sub = draw(st.lists(st.sampled_from(items), min_size=1, max_size=len(items), unique=True))
             sel[l] = {"kind": k, "items": sub}
+            if k == "list":
+                how_ = draw(st.sampled_from(["list", "list", "iter", "tuple"]))
+                if how_ != "list":
+                    sel[l]["as"] = how_
     # key order in the dict need not follow the array's dimension order
     if len(sel) > 1 and draw(st.booleans()):
         ks = draw(st.permutations(list(sel)))
@@ -224,7 +232,7 @@ def selectors(draw, U, xletters, allow_list, force_nonempty=False):
 
 @st.composite
 def index_cases(draw, rw, max_dims=4, max_len=3):
-    U = draw(gen.universes(min_dims=draw(st.sampled_from([1, 2, 3, 3])), max_dims=max_dims, max_len=max_len, min_len=1, long_dim=5))
+    U = draw(gen.universes(min_dims=draw(st.sampled_from([1, 2, 3, 3])), max_dims=min(max_dims, 4), max_len=max_len, min_len=1, long_dim=5, long_sizes=(12, 16, 17, 24, 33, 48, 300)))
     x = draw(gen.arrays(U, modes=("coded",), min_dims=1, allow_int=(rw == "read")))
     sel = draw(selectors(U, x["letters"], allow_list=(rw == "write")))
     kinds = {s["kind"] for s in sel.values()}
